@@ -71,6 +71,13 @@ Theorem child_processes_under_the_context :
   command_sites = [("interp.execShell", "CommandContext", "p.checkCtx"); ("interp.execShell", "Command", "!(p.checkCtx)")].
 Proof. reflexivity. Qed.
 
+(* the context's error originates in two places only: the poll, and system() whose wait for the
+   child failed while the context is done *)
+Theorem context_error_origins :
+  ctx_err_sites = [("interp.checkContextNow", ""); ("interp.callBuiltin", "err != nil");
+                   ("interp.callBuiltin", "err != nil && p.checkCtx && p.ctx.Err() != nil")].
+Proof. reflexivity. Qed.
+
 (* ---- every loop of package interp, by what bounds it ---- *)
 
 Inductive bound : Type :=
